@@ -21,11 +21,11 @@ From Oras Require Import Model.OciIndex Proofs.OciIndex Model.TarFS Proofs.TarFS
    entry points to an existing blob. *)
 Theorem C08_reopen_equiv_autosave :
   forall (N : nat) (mf : nat -> bool) (succs : nat -> list nat) (subj : nat -> option nat)
-         (sk dflt : nat -> bool),
+         (sk bad dflt : nat -> bool),
     (forall k, mf k = false -> succs k = []) ->
     forall (T : nat) (cfg : config) (h : list (op * orders)),
       autosave cfg = true -> wf_history mf h ->
-      let s := run N mf succs subj sk true true true true cfg h store_empty in
+      let s := run N mf succs subj sk bad true true true true true cfg h store_empty in
       obs_equiv N succs dflt T (reopen N mf succs s) s /\ disk_valid s = true.
 Proof. exact reopen_equiv_autosave. Qed.
 Print Assumptions C08_reopen_equiv_autosave.
@@ -33,11 +33,11 @@ Print Assumptions C08_reopen_equiv_autosave.
 (* AutoSaveIndex off (or on): any history without a reopen in the middle, followed by SaveIndex. *)
 Theorem C08_reopen_equiv_saveindex :
   forall (N : nat) (mf : nat -> bool) (succs : nat -> list nat) (subj : nat -> option nat)
-         (sk dflt : nat -> bool),
+         (sk bad dflt : nat -> bool),
     (forall k, mf k = false -> succs k = []) ->
     forall (T : nat) (cfg : config) (h : list (op * orders)) (o : orders),
       wf_history mf h -> no_reopen h ->
-      let s := run N mf succs subj sk true true true true cfg (h ++ [(OSave, o)]) store_empty in
+      let s := run N mf succs subj sk bad true true true true true cfg (h ++ [(OSave, o)]) store_empty in
       obs_equiv N succs dflt T (reopen N mf succs s) s /\ disk_valid s = true.
 Proof. exact reopen_equiv_saveindex. Qed.
 Print Assumptions C08_reopen_equiv_saveindex.
@@ -46,11 +46,11 @@ Print Assumptions C08_reopen_equiv_saveindex.
    (any AutoSaveIndex setting). *)
 Theorem C08_reopen_equiv_saveindex_reopen :
   forall (N : nat) (mf : nat -> bool) (succs : nat -> list nat) (subj : nat -> option nat)
-         (sk dflt : nat -> bool),
+         (sk bad dflt : nat -> bool),
     (forall k, mf k = false -> succs k = []) ->
     forall (T : nat) (cfg : config) (h : list (op * orders)) (o : orders),
       wf_history mf h -> reopen_after_save true h ->
-      let s := run N mf succs subj sk true true true true cfg (h ++ [(OSave, o)]) store_empty in
+      let s := run N mf succs subj sk bad true true true true true cfg (h ++ [(OSave, o)]) store_empty in
       obs_equiv N succs dflt T (reopen N mf succs s) s /\ disk_valid s = true.
 Proof. exact reopen_equiv_saveindex_general. Qed.
 Print Assumptions C08_reopen_equiv_saveindex_reopen.
@@ -60,13 +60,13 @@ Print Assumptions C08_reopen_equiv_saveindex_reopen.
    indexed manifest is stored, every reference points to stored content *)
 Theorem C08_store_invariant :
   forall (N : nat) (mf : nat -> bool) (succs : nat -> list nat) (subj : nat -> option nat)
-         (sk : nat -> bool) (cfg : config) (h : list (op * orders)),
+         (sk bad : nat -> bool) (cfg : config) (h : list (op * orders)),
     wf_history mf h -> (autosave cfg = true \/ no_reopen h) ->
-    let s := run N mf succs subj sk true true true true cfg h store_empty in
+    let s := run N mf succs subj sk bad true true true true true cfg h store_empty in
     (forall k, mf k = true -> In k (blobs s) -> lookup (RDig k) (r_index (res s)) <> None /\ In k (gr s)) /\
     (forall k, mf k = true -> In k (gr s) -> In k (blobs s)) /\
     (forall r d, lookup r (r_index (res s)) = Some d -> In (d_node d) (blobs s)).
-Proof. exact (fun N mf succs subj sk => store_invariant N mf succs subj sk (fun _ => false)). Qed.
+Proof. exact (fun N mf succs subj sk bad => store_invariant N mf succs subj sk bad (fun _ => false)). Qed.
 Print Assumptions C08_store_invariant.
 
 (* index.json written by saveIndex is, for every pair of iteration orders, a projection of
@@ -81,7 +81,7 @@ Theorem C08_reopen_equiv_refuted_gc :
   exists (N : nat) (mf : nat -> bool) (succs : nat -> list nat) (subj : nat -> option nat)
          (sk dflt : nat -> bool) (cfg : config) (h : list (op * orders)),
     autosave cfg = true /\ wf_history mf h /\
-    let s := run N mf succs subj sk false true true true cfg h store_empty in
+    let s := run N mf succs subj sk (fun _ => false) false true true true true cfg h store_empty in
     obs_resolve_dig dflt (reopen N mf succs s) 0 <> obs_resolve_dig dflt s 0 /\ disk_valid s = false.
 Proof. exact refuted_gc_not_saved. Qed.
 Print Assumptions C08_reopen_equiv_refuted_gc.
@@ -91,7 +91,7 @@ Theorem C08_reopen_equiv_refuted_gc_digest_ref :
   exists (N : nat) (mf : nat -> bool) (succs : nat -> list nat) (subj : nat -> option nat)
          (sk dflt : nat -> bool) (cfg : config) (h : list (op * orders)),
     autosave cfg = true /\ wf_history mf h /\ (forall k, mf k = false -> succs k = []) /\
-    let s := run N mf succs subj sk true false true true cfg h store_empty in
+    let s := run N mf succs subj sk (fun _ => false) true false true true true cfg h store_empty in
     obs_preds N succs (reopen N mf succs s) 0 <> obs_preds N succs s 0.
 Proof. exact refuted_gc_drops_digest_ref. Qed.
 Print Assumptions C08_reopen_equiv_refuted_gc_digest_ref.
@@ -102,9 +102,9 @@ Theorem C08_gc_hang_prefix :
   let mf := fun k => Nat.eqb k 1 in
   let succs := fun k : nat => if Nat.eqb k 1 then [0] else [] in
   let subj := fun k : nat => if Nat.eqb k 1 then Some 0 else None in
-  let s1 := run 2 mf succs subj mf true true false true ex_cfg (ex_plain_hist [OPush 1]) store_empty in
-  snd (step 2 mf succs subj mf true true false true ex_cfg s1 (OGC, ord0)) = RHang /\
-  let r := step 2 mf succs subj mf true true true true ex_cfg s1 (OGC, ord0) in
+  let s1 := run 2 mf succs subj mf (fun _ => false) true true false true true ex_cfg (ex_plain_hist [OPush 1]) store_empty in
+  snd (step 2 mf succs subj mf (fun _ => false) true true false true true ex_cfg s1 (OGC, ord0)) = RHang /\
+  let r := step 2 mf succs subj mf (fun _ => false) true true true true true ex_cfg s1 (OGC, ord0) in
   snd r = ROk /\ obs_exists (fst r) 1 = false.
 Proof. exact prefix_gc_hangs. Qed.
 Print Assumptions C08_gc_hang_prefix.
@@ -119,25 +119,41 @@ Theorem C08_tar_view :
     archives clean tar d ->
     forall p,
       (dlookup p d <> None \/ (forall e, In e tar -> clean (te_raw e) <> p) ->
-       tar_open clean tar p = dir_open d p) /\
+       tar_open clean true tar p = dir_open d p) /\
       (dlookup p d = None -> (exists e, In e tar /\ clean (te_raw e) = p) ->
-       tar_open clean tar p = FUnsupported).
+       tar_open clean true tar p = FUnsupported).
 Proof. exact tar_view. Qed.
 Print Assumptions C08_tar_view.
 
-(* why tag names must not be digest strings of other nodes *)
-Theorem C08_inconsistent_reference_example :
-  exists h, ~ wf_history (fun _ => true) h /\
-    let s := run 2 (fun _ => true) (fun _ => []) (fun _ => None) (fun _ => true) true true true true ex_cfg h store_empty in
-    obs_resolve_dig (fun _ => false) (reopen 2 (fun _ => true) (fun _ => []) s) 1 <> obs_resolve_dig (fun _ => false) s 1.
-Proof. exact inconsistent_reference_example. Qed.
-Print Assumptions C08_inconsistent_reference_example.
+(* internal/fs/tarfs as found (audit F1): members stored sparse by GNU tar -S / bsdtar do not
+   open to their content; the repaired Open ([true]) decodes them. *)
+Theorem C08_tar_view_refuted_sparse :
+  exists (clean : nat -> nat) (tar : list tentry) (d : dirfs) (p : nat),
+    archives clean tar d /\ dlookup p d <> None /\
+    tar_open clean false tar p <> dir_open d p /\ tar_open clean true tar p = dir_open d p.
+Proof. exact tar_view_refuted_sparse. Qed.
+Print Assumptions C08_tar_view_refuted_sparse.
+
+(* The code as found accepts the digest string of other stored content as a tag name and the
+   reopened store then differs (Predecessors); the repaired Tag answers ErrInvalidReference,
+   which is why the main theorems need no hypothesis on reference names any more. *)
+Theorem C08_reopen_equiv_refuted_foreign_digest_reference :
+  let h := ex_plain_hist [OPush 1; OPush 2; OTag (plain 1) (RDig 2)] in
+  let run' := fun fixRef => run 3 ex2_mf ex2_succs (fun _ => None) (fun _ => true) (fun _ => false)
+                                true true true true fixRef ex_cfg in
+  (let s := run' false h store_empty in
+   obs_preds 3 ex2_succs s 0 = [2] /\ obs_preds 3 ex2_succs (reopen 3 ex2_mf ex2_succs s) 0 = []) /\
+  (let s := run' true (ex_plain_hist [OPush 1; OPush 2]) store_empty in
+   snd (step 3 ex2_mf ex2_succs (fun _ => None) (fun _ => true) (fun _ => false) true true true true true
+             ex_cfg s (OTag (plain 1) (RDig 2), ord0)) = RInvalidReference).
+Proof. exact refuted_foreign_digest_reference. Qed.
+Print Assumptions C08_reopen_equiv_refuted_foreign_digest_reference.
 
 (* the hypotheses are satisfiable: a concrete history with re-tags, annotations, a tagged
    blob, Untag, GC, Delete, read-write reopen and non-trivial map orders *)
 Example C08_hypotheses_satisfiable :
   wf_history ex_mf ex_hist /\ (forall k, ex_mf k = false -> ex_succs k = []) /\
-  let s := run 3 ex_mf ex_succs (fun _ => None) (fun _ => true) true true true true ex_cfg ex_hist store_empty in
+  let s := run 3 ex_mf ex_succs (fun _ => None) (fun _ => true) (fun _ => false) true true true true true ex_cfg ex_hist store_empty in
   obs_tags 3 s = [0] /\ obs_resolve_tag s 0 = Some (mkDesc 1 2 (Some (RTag 0))) /\
   obs_preds 3 ex_succs s 1 = [2] /\ obs_preds 3 ex_succs s 0 = [1] /\
   obs_preds 3 ex_succs (reopen 3 ex_mf ex_succs s) 0 = [1] /\ disk_valid s = true.
